@@ -100,14 +100,24 @@ def run(ctx):
     for _ in range(ctx.budget(70, 600)):
         gd = G.gen_graph(rng, cap=ctx.budget(200, 1200))
         layers, dist = G.ref_bfs(gd, [gd["central"]])
+        starts = None
+        if rng.random() < 0.3:
+            # several start states, in arbitrary order, possibly repeated: the numbering of layer 0 must still match all_states / vertex_names
+            starts = G.gen_starts(rng, gd, dist)
+            if len(starts) == 1:
+                starts = starts + [list(rng.choice(sorted(dist)))]
+            rng.shuffle(starts)
+            layers, dist = G.ref_bfs(gd, starts)
         cfgd = G.gen_config(rng, gd)
         graph = G.make_graph(gd, cfgd)
         kw = {"return_all_edges": True, "return_all_hashes": True, "max_layer_size_to_store": None}
         early = rng.random() < 0.4 and len(layers) >= 3
         if early:
             kw["max_diameter"] = rng.randint(1, len(layers) - 2)
-        obs, res = bfsrun.observe(graph, None, kw, None)
-        case = {"graph": gd, "config": cfgd, "bfs": kw}
+        obs, res = bfsrun.observe(graph, starts, kw, None)
+        case = {"graph": gd, "config": cfgd, "bfs": kw, "starts": starts}
+        if starts is not None:
+            ctx.count("multi_start_runs")
         ctx.case_seen(case, len(dist) >= 4 and len(layers) >= 2)
         ctx.count("early_stopped" if early else "completed")
         ctx.count("kind_" + gd["kind"]); ctx.count("directed" if not graph.definition.generators_inverse_closed else "undirected")
@@ -119,12 +129,12 @@ def run(ctx):
             persists = True
             for s in (11, 222):
                 g2 = G.make_graph(gd, dict(cfgd, random_seed=s))
-                _, r2 = bfsrun.observe(g2, None, kw, None)
+                _, r2 = bfsrun.observe(g2, starts, kw, None)
                 if r2 is not None and check_export(gd, r2, layers, dist, not early) is None:
                     persists = False
             if persists:
                 ctx.violation("property_fails", msg, case, True)
-        bfs_cases.append(bfsrun.coq_case(gd, graph, None, kw, None, obs)); bfs_metas.append(case)
+        bfs_cases.append(bfsrun.coq_case(gd, graph, starts, kw, None, obs)); bfs_metas.append(case)
         if gd["kind"] == "perm":
             el = [(int(a), int(b)) for a, b in res.edges_list.tolist()]
             en = []
@@ -172,11 +182,11 @@ def replay(ctx, obj):
     case = obj.get("case", {})
     if obj.get("kind") == "property_fails" and "bfs" in case:
         gd = case["graph"]
-        layers, dist = G.ref_bfs(gd, [gd["central"]])
+        layers, dist = G.ref_bfs(gd, case.get("starts") or [gd["central"]])
         msg = None
         for s in (case["config"].get("random_seed"), 11, 222):
             g2 = G.make_graph(gd, dict(case["config"], random_seed=s))
-            _, r2 = bfsrun.observe(g2, None, case["bfs"], None)
+            _, r2 = bfsrun.observe(g2, case.get("starts"), case["bfs"], None)
             if r2 is None:
                 msg = "bfs raised"
                 continue
